@@ -1038,6 +1038,64 @@ func c08Merge(c *Ctx, t *tables.Tree) {
 			detail = "the last block appended is not the personal notebook's entries"
 		}
 	}
+	// or: make(len(main)+len(personal)); copy(all, main); copy(all[len(main):], personal)
+	if mk, ok := mergedVal.(*ssa.MakeSlice); ok && !okOrder {
+		lenOf := func(v ssa.Value) (int, bool) {
+			v = ssau.ResolveCell(v)
+			if lc, ok := v.(*ssa.Call); ok && ssau.CallName(lc) == "builtin.len" {
+				return commandsOf(lc.Common().Args[0])
+			}
+			return 0, false
+		}
+		sized := false
+		if sum, ok := mk.Len.(*ssa.BinOp); ok && sum.Op == token.ADD {
+			a, okA := lenOf(sum.X)
+			b, okB := lenOf(sum.Y)
+			sized = okA && okB && a+b == 1
+		}
+		var c0, c1 bool
+		clean := true
+		for _, ref := range *mk.Referrers() {
+			switch x := ref.(type) {
+			case *ssa.Call:
+				if ssau.CallName(x) == "builtin.copy" && x.Common().Args[0] == ssa.Value(mk) {
+					if p, ok := commandsOf(x.Common().Args[1]); ok && p == 0 {
+						c0 = true
+						continue
+					}
+				}
+				if ssau.CallName(x) != "builtin.len" {
+					clean = false
+				}
+			case *ssa.Slice:
+				// all[len(main):] as the destination of the second copy
+				low, okL := lenOf(x.Low)
+				good := false
+				if x.X == ssa.Value(mk) && x.High == nil && x.Low != nil && okL && low == 0 {
+					for _, r2 := range *x.Referrers() {
+						if cp, ok := r2.(*ssa.Call); ok && ssau.CallName(cp) == "builtin.copy" && cp.Common().Args[0] == ssa.Value(x) {
+							if p, ok := commandsOf(cp.Common().Args[1]); ok && p == 1 {
+								good = true
+							}
+						}
+					}
+				}
+				if good {
+					c1 = true
+				} else {
+					clean = false
+				}
+			case *ssa.IndexAddr:
+				clean = false
+			case *ssa.Store, *ssa.DebugRef:
+			}
+		}
+		if sized && c0 && c1 && clean {
+			okOrder = true
+		} else {
+			detail = "the merged list is made with a length but not filled by copy(all, main) and copy(all[len(main):], personal) alone"
+		}
+	}
 	r.Check(okOrder, "O-5", fk+"#merge-order", c.P.Pos(mergedVal.Pos()), "main entries followed by notebook entries", detail)
 	// both index builds on the merged database, on every path to its return
 	pd := ssau.NewPostDom(home)
